@@ -55,12 +55,12 @@ SCOPE = {
              'each random case additionally draws independently: unknown (all-zero) positions, identical sequences with different args, '
              'X as permuted/sliced/strided view, strided args, args as list, X dtype uint8/int32/int64/bool/float16, torch.device, verbose, '
              'raw with target/hypothetical passed, 1-D outputs (raw), output offset 2**30+1, open/negative slice bounds, batch sizes '
-             '2*A*W, 2*A*W+1, 3*A*W, N*A*W, 10**6; 200 such cases with lengths 1-6 run first; 70 cases with 4-40 examples '
+             '2*A*W, 2*A*W+1, 3*A*W, N*A*W, 10**6; 300 such cases with lengths 1-6 and 1-4 examples run first; then 100 cases with 4-40 examples '
              '(31-34 emphasised), lengths 1-4, windows of width 1-3; the rotations of the exhaustive parts are drawn independently '
              '(examples, batch size, model, args, mode, target no longer correlated)',
     'thorough': 'alphabets 2-5; exhaustive: lengths 1-9 x every window x 3 output kinds x {raw, attr, hyp} plus every negative-end '
                 'spelling for lengths 1-8; 20000 seeded random cases as in quick (lengths 1-30) with the same independently drawn options; '
-                '3000 short-option cases first; 1500 cases with 4-40 examples',
+                '2000 short-option cases first, then 800 cases with 4-40 examples',
 }
 
 F64 = torch.float64
@@ -502,12 +502,12 @@ def run(rep):
     maxL_ex = 9 if thorough else 6
     maxL_neg = 8 if thorough else 5
     # -- cheap cases of the classes added by the audit first: short sequences with every option, then many examples
-    for k in range(3000 if thorough else 200):
+    for k in range(2000 if thorough else 300):
         if rep.out_of_time():
             rep.note('time budget reached after %d short-option cases' % k)
             return
         _do(rep, _rand_case(g, 'short'), ('opt', k), 'short-options', sample=(k < 1))
-    for k in range(1500 if thorough else 70):
+    for k in range(800 if thorough else 100):
         if rep.out_of_time():
             rep.note('time budget reached after %d many-example cases' % k)
             return
